@@ -35,9 +35,11 @@
        run (C02_program_trace); with ns do {..}, getVariable / setVariable, private "x" and more operators are constructors.
        try {..} catch {..} with throw is covered for throws at statement level through call / if-then(-else) / handlers that
        throw again (C02_vm_runs_throw, C02_ref_runs_throw; machine lemmas in VM/SimThrowOps.v).
+       scopeName / breakOut are covered the same way (C02_vm_runs_breakout, C02_ref_runs_breakout; VM/SimBreakOps.v): scope names are
+       part of the matched state, breakOut at statement level through call / if-then(-else) ends exactly the named scope.
        NOT covered by the simulation: switch,
-       exitWith inside an operand, breakOut, a throw inside an operand or a loop body, waitUntil, nil operands, a while loop with
-       an empty body or a non-boolean condition - for these the
+       exitWith inside an operand, a throw or breakOut inside an operand or out of a loop body, waitUntil, nil operands, a while loop
+       with an empty body or a non-boolean condition - for these the
        per-construct theorems below and the program-level differential are the evidence;
      - the compiler emits the post-order of the source (code blocks, binary operators, arrays);
      - per-construct characterisations of the VM model: which block is entered, with which bindings, how often, and when a
@@ -51,7 +53,7 @@
    Properties_C05 (one value per scope, regions). *)
 From Coq Require Import String Ascii.
 From Coq Require Import ZArith List Bool Lia.
-From SqfVerif Require Import Gen.DiagCodes Gen.Overloads VM.VmDefs VM.VmExec VM.RefSem VM.C02Proofs VM.SimDefs VM.SimProofs VM.SimBlock VM.SimCtl VM.SimRun VM.SimThrowOps VM.SimExit VM.SimProg.
+From SqfVerif Require Import Gen.DiagCodes Gen.Overloads VM.VmDefs VM.VmExec VM.RefSem VM.C02Proofs VM.SimDefs VM.SimProofs VM.SimBlock VM.SimCtl VM.SimRun VM.SimThrowOps VM.SimBreakOps VM.SimExit VM.SimProg.
 Import ListNotations.
 Local Open Scope string_scope.
 Local Open Scope list_scope.
@@ -678,7 +680,7 @@ Qed.
    Not covered: a throw inside an operand, inside a loop body, or past the last handler. *)
 Theorem C02_ref_runs_throw : forall s reg b x s', zthrow s reg b x s' ->
   exists f0, forall f, f0 <= f -> eval_block f s b reg = (OThrow x, s').
-Proof. exact (proj2 (proj2 (proj2 (proj2 (proj2 (proj2 (proj2 ref_runs_z))))))). Qed.
+Proof. exact (proj1 (proj2 (proj2 (proj2 (proj2 (proj2 (proj2 (proj2 ref_runs_z)))))))). Qed.
 Print Assumptions C02_ref_runs_throw.
 Theorem C02_vm_runs_throw : forall s reg b x s', zthrow s reg b x s' ->
   forall r c f restf below pre inner ft rest h jn below_t,
@@ -686,11 +688,11 @@ Theorem C02_vm_runs_throw : forall s reg b x s', zthrow s reg b x s' ->
     f_code f = pre ++ compile_block b -> f_pos f = length pre ->
     f :: restf = inner ++ ft :: rest -> Forall (fun m => f_err m = None) inner -> f_err ft = Some (ECatch h) ->
     below = jn ++ below_t -> under jn -> length below_t = f_base ft ->
-    exists r' c' rest', Steps r r' /\ Forall2 kept rest rest' /\
-      Good r' c' /\ quirks r' = ([], 0) /\ c_frames c' = handler_frame ft h (cv x) :: rest' /\
-      Match (set_top_vars (drop_scopes (length inner) s') [("_exception", x)]) r' (handler_frame ft h (cv x) :: rest') /\
+    exists r' c' rest' ft0, Steps r r' /\ Forall2 kept rest rest' /\ moved ft ft0 /\
+      Good r' c' /\ quirks r' = ([], 0) /\ c_frames c' = handler_frame ft0 h (cv x) :: rest' /\
+      Match (set_top_vars (drop_scopes (length inner) s') [("_exception", x)]) r' (handler_frame ft0 h (cv x) :: rest') /\
       exists jn', c_values c' = VNil :: jn' ++ below_t /\ under jn'.
-Proof. exact (proj2 (proj2 (proj2 (proj2 (proj2 (proj2 (proj2 vm_runs_z))))))). Qed.
+Proof. exact (proj1 (proj2 (proj2 (proj2 (proj2 (proj2 (proj2 (proj2 vm_runs_z)))))))). Qed.
 Print Assumptions C02_vm_runs_throw.
 (* r = try { diag_log "a"; if (true) then { throw "boom" }; diag_log "dead"; 1 } catch { diag_log _exception; _exception + "!" }; r
    yields "boom!", logs a then boom, and nothing behind the throw runs *)
@@ -756,4 +758,64 @@ Proof.
   split; [unfold Good; split; [reflexivity|cbn; auto 10]|]. split; [reflexivity|]. split.
   - split; [|reflexivity]. cbn. constructor; [|constructor]. split; [intros k; reflexivity|split; [reflexivity|split; reflexivity]].
   - split; [cbn; lia|reflexivity].
+Qed.
+
+(* ---- scopeName / breakOut (VM/SimBreakOps.v, relation zbreak of VM/SimExit.v).  Scope names are part of the matched state
+   (frame_match: the frame's name is the scope's).  `scopeName "t"` is a constructor of the expression relation (a scope is named
+   once); a block is LEFT BY breakOut "t" when, after statements that run normally, it reaches `breakOut "t"`, `v breakOut "t"`, or a
+   scope construct standing as a statement - call {..}, if-then(-else) - whose own scope is not named t and whose block is left that
+   way; call / if-then / if-then-else whose own scope IS named t yield the value handed to breakOut (nil for the unary form).
+   Machine side: where the innermost scope named t is k scopes up (judged on the reference state at the breakOut), the machine pops
+   k+1 frames, each one's part of the operand stack with it, and continues in the frame below with the value on what lay below the
+   named frame - an early exit leaves exactly the targeted scope.  While proving this the frame of a loop's next round turned out
+   to keep its name (repaired, see DESIGN.md).  Not covered: breakOut out of a loop body, to a name no scope carries, to "". *)
+Theorem C02_ref_runs_breakout : forall s reg b t v s', zbreak s reg b t v s' ->
+  exists f0, forall f, f0 <= f -> eval_block f s b reg = (OBreak t v, s').
+Proof. exact (proj2 (proj2 (proj2 (proj2 (proj2 (proj2 (proj2 (proj2 ref_runs_z)))))))). Qed.
+Print Assumptions C02_ref_runs_breakout.
+Theorem C02_vm_runs_breakout : forall s reg b t v s', zbreak s reg b t v s' ->
+  forall r c f restf below pre k top fn fc rest jn below_n,
+    AtM s reg r c f restf below -> Fresh c below ->
+    f_code f = pre ++ compile_block b -> f_pos f = length pre ->
+    find_name t (st_scopes s') 0 = Some k ->
+    f :: restf = top ++ fn :: fc :: rest -> length top = k ->
+    Forall (fun m => f_base fn <= f_base m) top -> f_base fc <= f_base fn ->
+    below = jn ++ below_n -> length below_n = f_base fn ->
+    exists r' c' fc' rest', Steps r r' /\ Mach (drop_scopes (S k) s') r' c' fc' rest' /\ c_values c' = cv v :: below_n /\
+      kept fc fc' /\ Forall2 kept rest rest'.
+Proof. exact (proj2 (proj2 (proj2 (proj2 (proj2 (proj2 (proj2 (proj2 vm_runs_z)))))))). Qed.
+Print Assumptions C02_vm_runs_breakout.
+(* r = call { scopeName "out"; diag_log "a"; if (true) then { call { diag_log "b"; "v" breakOut "out" }; diag_log "dead" }; diag_log "dead"; 1 }; r
+   yields "v", logs a then b: two scopes that do not carry the name are passed, the named one ends with the value *)
+Definition ex_break_prog : list stmt :=
+  [SAssign "r" (EUnary "call" (ECode
+     [SExpr (EUnary "scopeName" (EStr "out"));
+      SExpr (EUnary "diag_log" (EStr "a"));
+      SExpr (EBinary "then" (EUnary "if" (EBool true))
+               (ECode [SExpr (EUnary "call" (ECode [SExpr (EUnary "diag_log" (EStr "b")); SExpr (EBinary "breakOut" (EStr "v") (EStr "out"))]));
+                       SExpr (EUnary "diag_log" (EStr "dead"))]));
+      SExpr (EUnary "diag_log" (EStr "dead")); SExpr (ENum 1)]));
+   SExpr (EVar "r")].
+Example breakout_inhabited : exists s', zprog init_state RNone ex_break_prog (RStr "v") s' /\ st_trace s' = ["b"; "a"].
+Proof.
+  eexists. split.
+  { eapply ZPCons.
+    - eapply ZSAssign.
+      { discriminate. }
+      { eapply ZCallBreak; [reflexivity|intros ? ?; discriminate|eapply ZCode| |].
+        - eapply ZKCons.
+          + eapply ZSExprV. eapply ZScopeName; [reflexivity|intros ? ?; discriminate|eapply ZPure; eapply PStr|reflexivity|reflexivity].
+          + eapply ZKCons.
+            * eapply ZSExprV. eapply ZDiag; [reflexivity|intros ? ?; discriminate|eapply ZPure; eapply PStr|split; discriminate|reflexivity].
+            * eapply ZKThen; [reflexivity|eapply ZIf; [reflexivity|intros ? ?; discriminate|eapply ZPure; eapply PBool]|eapply ZCode| |].
+              { eapply ZKCallU; [reflexivity|intros ? ?; discriminate|eapply ZCode| |].
+                - eapply ZKCons.
+                  + eapply ZSExprV. eapply ZDiag; [reflexivity|intros ? ?; discriminate|eapply ZPure; eapply PStr|split; discriminate|reflexivity].
+                  + eapply ZKBreakV; [reflexivity|eapply ZPure; eapply PStr|split; discriminate|eapply ZPure; eapply PStr|discriminate].
+                - discriminate. }
+              { discriminate. }
+        - reflexivity. }
+      { split; discriminate. }
+    - eapply ZPLast. eapply ZSExprV. eapply ZPure. eapply PVarG; reflexivity. }
+  reflexivity.
 Qed.
